@@ -92,6 +92,9 @@ def run_prop_hypothesis(prop, ctx, n, seedval, tier):
         state = {"t_first": None, "best": None}
 
         def body(spec):
+            # (the budget also ends a shrink whose attempts are slow *passing* cases - large instances)
+            if state["t_first"] is not None and time.time() - state["t_first"] > SHRINK_BUDGET_S[tier]:
+                raise StopShrink()
             try:
                 _run_one(prop, spec, ctx)
             except Violation as v:
